@@ -72,6 +72,17 @@ pub fn query_cfg_params() {
     let mut d = 0;
     ecs_iter!(world, |#[cfg(all())] e: &Entity<C1>, kb: &KB| { assert!(kb.0 >= 20); d += 1; });
     assert!(d == n1, "a cfg-enabled Entity<A> parameter did not restrict");
+    // disabled DIRECT-handle parameters of every kind: none restricts (EntityDirect<A> names an archetype!)
+    let mut e1 = 0;
+    ecs_iter!(world, |#[cfg(any())] d: &EntityDirect<C1>, kb: &KB| { e1 += 1; });
+    assert!(e1 == n0 + n1, "a cfg-disabled EntityDirect<A> parameter restricted the match");
+    let mut e2 = 0;
+    ecs_iter_borrow!(world, |kb: &KB, #[cfg(any())] d: &EntityDirect<C0>, #[cfg(any())] x: &EntityDirectAny, #[cfg(any())] y: &EntityDirect<_>| { e2 += 1; });
+    assert!(e2 == n0 + n1, "a cfg-disabled direct-handle parameter restricted the match");
+    // enabled EntityDirect<A> restricts like an unannotated one
+    let mut e3 = 0;
+    ecs_iter!(world, |#[cfg(all())] d: &EntityDirect<C0>, kb: &KB| { assert!(kb.0 < 20); e3 += 1; });
+    assert!(e3 == n0, "a cfg-enabled EntityDirect<A> parameter did not restrict");
     cover!(n0 == 1 && n1 == 2, "both archetypes populated");
     std::mem::forget(world);
 }
